@@ -9,6 +9,14 @@ CHECKS = {
          "Exploration: every BaseMatrix/BaseVector/stats/high-order method of DenseMatrix<f32/f64> and Vec<T> is compared with a textbook model on generated shapes, value classes and compatible/incompatible pairings; in-place vs copying variants bitwise; softmax probability-vector invariants; variance accuracy against a two-pass reference; stateful op sequences against the model. A universally quantified numerical/algebraic contract over a small-dimensional input space is exactly what generated search with an exact oracle decides well; no absence proof is claimed.",
          "Trusts the f64 reference model in harness/src/oracle.rs and matops.rs (no smartcore code), IEEE-754 arithmetic, and the stated tolerances (exact for structural operations, a small multiple of n*eps*sum|terms| for reductions).",
          "DESIGN.md section 7 C03"),
+ "C01": ("property-based testing (proptest): constructed matrices with prescribed spectrum / structure, residual and structure oracles evaluated in f64",
+         "Exploration: LU, QR, Cholesky and SVD of DenseMatrix<f32/f64> on constructed inputs of every class the quantifier names (dense with prescribed singular values, diagonal, triangular, permutation, orthogonal, low-rank+ridge, integer, zero blocks / rows / columns, graded, SPD, indefinite, exactly rank-deficient; rescaled by 1e-12..1e12); factor residuals, exact triangular / permutation structure, orthonormality, ordering of singular values, solve / least-squares / minimum-norm residuals, and rejection of indefinite input, all against an independent f64 matrix model with backward-error-shaped bounds.",
+         "Trusts harness/src/oracle.rs (matrix products, Householder generator) and the calibrated constant C=512 in units of eps*max(m,n)*norm (unchanged code stays below 4).",
+         "DESIGN.md section 7 C01"),
+ "C18": ("property-based testing (proptest) plus exhaustive small-scope enumeration against the definition-built expected matrix; round-trip laws for the category mapper",
+         "Exploration with an exhaustive part: every plain/1/2/3-category assignment of up to 5 (quick) or 6 (thorough) columns is enumerated and random larger cases (n<=40, p<=10, arbitrary u16 codes, any index order, f32/f64) are generated; the encoder output is compared exactly with a matrix built from the definition; error cases (unseen value, non-integer, negative) must return Err; the mapper's four maps are checked to be mutually inverse in first-appearance order.",
+         "Trusts the 20-line definition-based reference encoder in harness/src/props/c18.rs.",
+         "DESIGN.md section 7 C18"),
 }
 ALL = ["C%02d" % i for i in range(1, 21)]
 NA_REASON = {}
